@@ -63,7 +63,7 @@ def oracle(log, rc=0, stderr=""):
         elif rec == "RAWPOST":
             i = w[2]
             cnt = int(next((x[2:] for x in w if x.startswith("n=")), "1"))
-            stacks[t].append((i, n))
+            stacks[t].append([i, n, cnt, 0])
             o = objs.get(i)
             if o and o["reg"] and cnt > 0:
                 o["need"] = n
@@ -79,6 +79,13 @@ def oracle(log, rc=0, stderr=""):
                 return ("blocking-descriptor", f"line {n}: iv_event_raw_post writes to a descriptor without O_NONBLOCK ({l.strip()})")
             if stale:
                 continue
+            if kvs.get("errno") != "EINTR" and stacks[t] and stacks[t][-1][0] == i:
+                # one iv_event_raw_post = one write (repeated only after EINTR): more writes than calls means a call went back to
+                # write after EAGAIN or an error, i.e. it waits for room in the pipe instead of returning
+                stacks[t][-1][3] += 1
+                if stacks[t][-1][3] > stacks[t][-1][2]:
+                    return ("poster-spins", f"line {n}: iv_event_raw_post on {i} (entered at line {stacks[t][-1][1]}, {stacks[t][-1][2]} call(s)) issued more "
+                                            f"writes than calls after {kvs.get('errno')}: posting waits for room instead of returning")
             o = objs.get(i)
             if kvs.get("errno") == "0":
                 if o and o["reg"]:
